@@ -251,7 +251,9 @@ func w6qRun(t *testing.T, c *simrt.Case, prop string, keepTrace bool) simrt.Resu
 			w.finish()
 		}
 	})
-	if len(res.Stats.TaskPanics) > 0 && res.Violation == nil && prop == "C34" {
+	if len(res.Stats.TaskPanics) > 0 && res.Violation == nil && prop == "C34" && simrt.PanicInHarness(res.Stats.TaskPanics[0]) {
+		res.Stats.Probes["HARNESS-PANIC"]++
+	} else if len(res.Stats.TaskPanics) > 0 && res.Violation == nil && prop == "C34" {
 		lines := strings.Split(res.Stats.TaskPanics[0], "\n")
 		var keep []string
 		for _, l := range lines {
